@@ -47,8 +47,24 @@ def run_harness(name, timeout_s=600, mem_gb=12, extra=()):
             'tail': out[-1500:] if status != 'success' else ''}
 
 
+def prune(max_age_s=1800):
+    """artefacts of the harness crate / txtpp built from earlier scratch paths"""
+    root = os.path.join(build.CACHE, 'target-kani')
+    now = time.time()
+    for dp, dn, fn in os.walk(root):
+        for f in fn:
+            if 'txtpp' in f:
+                p = os.path.join(dp, f)
+                try:
+                    if now - os.path.getmtime(p) > max_age_s:
+                        os.remove(p)
+                except OSError:
+                    pass
+
+
 def run_many(names, timeout_s=600, workers=8):
     _crate()
+    prune()
     with ThreadPoolExecutor(max_workers=workers) as ex:
         return list(ex.map(lambda n: run_harness(n, timeout_s), names))
 
